@@ -977,6 +977,78 @@ def pack_dir_stage(tools, work, rep, ev, tier):
     return n
 
 
+def unpack_opts_stage(tools, work, rep, ev, tier):
+    """spec/UnpackOpts.tla: rdsquashfs --unpack-path / and sub directories under every combination of --no-dev / --no-sock / --no-fifo /
+    --no-slink / --no-empty-dir: all 128 option sets on the real tool (needs root for the device node), the unpacked objects compared."""
+    import stat as st_
+    cfg = work + "/uo.cfg"
+    write_cfg(cfg, spec="Spec", constants={"Emit": False, "EmptyPruneRecursive": True}, invariants=["NoEmptyDirLeft", "OnlyFiltersRemove"], deadlock=False)
+    r = run_tlc("UnpackOpts", cfg, workers=4, timeout=600)
+    ev.tlc(r, "UnpackOpts")
+    if not r["ok"]:
+        print("MODEL-FAILURE: UnpackOpts violates %s" % r["violated"])
+        return None
+    write_cfg(cfg, spec="Spec", constants={"Emit": False, "EmptyPruneRecursive": False}, invariants=["NoEmptyDirLeft"], deadlock=False)
+    r = run_tlc("UnpackOpts", cfg, workers=4, timeout=600)
+    ev.tlc(r, "dev UnpackOpts prune once")
+    if not r["violated"]:
+        print("SELF-CHECK-FAILED: UnpackOpts deviation without counterexample")
+        return None
+    if os.geteuid() != 0:
+        ev.assumptions.append("unpack option matrix skipped: not running as root")
+        return 0
+    write_cfg(cfg, spec="Spec", constants={"Emit": True, "EmptyPruneRecursive": True}, invariants=["EmitOK"], deadlock=False)
+    r = run_tlc("UnpackOpts", cfg, workers=2, timeout=600)
+    cases = bpbind.parse_emitted(r["out"])
+    if len(cases) != 128:
+        print("SELF-CHECK-FAILED: UnpackOpts emitted %d option sets" % len(cases))
+        return None
+    d = work + "/uo"
+    os.makedirs(d, exist_ok=True)
+    open(d + "/src.bin", "wb").write(b"data\n")
+    open(d + "/p.txt", "w").write("file /f 0644 0 0 %s/src.bin\nslink /l 0777 0 0 f\nnod /c 0600 0 0 c 1 2\nsock /s 0600 0 0\npipe /p 0600 0 0\ndir /e 0755 0 0\n"
+                                  "dir /d 0755 0 0\nslink /d/l2 0777 0 0 x\ndir /dd 0755 0 0\ndir /dd/e2 0755 0 0\ndir /k 0755 0 0\nfile /k/f2 0644 0 0 %s/src.bin\n" % (d, d))
+    rc, o, e = sh([tools + "/gensquashfs", "-q", "-f", "-F", d + "/p.txt", d + "/img.sqfs"], timeout=60)
+    if rc:
+        raise RuntimeError("gensquashfs failed: %s" % e[-200:])
+
+    def do(i):
+        c = cases[i]
+        o = c["o"]
+        out = "%s/out%d" % (d, i)
+        os.makedirs(out)
+        args = [tools + "/rdsquashfs", "-q"] + [f for f, k in (("-D", "D"), ("-S", "S"), ("-F", "F"), ("-L", "L"), ("-E", "E")) if o[k]]
+        args += ["-u", "/" + "/".join(o["u"]), "-p", out, d + "/img.sqfs"]
+        rc, so, e = sh(args, timeout=60)
+        desc = " ".join(args[2:-3] + ["-u", "/" + "/".join(o["u"])])
+        try:
+            if rc != 0:
+                return "reader-disagrees", "rdsquashfs %s: exit %d %s" % (desc, rc, e.decode(errors="replace")[-120:])
+            got = {}
+            for dp, dn, fn in os.walk(out):
+                for x in dn + fn:
+                    full = os.path.join(dp, x)
+                    m = os.lstat(full).st_mode
+                    got[os.path.relpath(full, out)] = ("dir" if st_.S_ISDIR(m) else "file" if st_.S_ISREG(m) else "slink" if st_.S_ISLNK(m) else "fifo" if st_.S_ISFIFO(m)
+                                                       else "sock" if st_.S_ISSOCK(m) else "dev")
+            want = {"/".join(e_["p"]): e_["t"] for e_ in c["m"]}
+            if got != want:
+                return "reader-disagrees", "rdsquashfs %s unpacks %s, specified %s" % (desc, sorted(got.items()), sorted(want.items()))
+            return None
+        finally:
+            shutil.rmtree(out, ignore_errors=True)
+    n, done = 0, False
+    with ThreadPoolExecutor(16) as ex:
+        for res in ex.map(do, range(len(cases))):
+            n += 1
+            if res and not done:
+                done = True
+                rep.violation(res[0], res[1])
+    ev.set("unpack_option_sets_replayed", n)
+    shutil.rmtree(d, ignore_errors=True)
+    return n
+
+
 def run(tier):
     ev = Evidence(PID, tier, "exploration")
     rep = Reporter(PID, ev)
@@ -1195,6 +1267,10 @@ def run(tier):
             rep.violation("pack-refuses-valid", "%d distinct ids are representable but gensquashfs refuses them (rc %d)" % (nid + 1, rc))
     os.makedirs(work + "/st", exist_ok=True)
     evaluations += stat_listing_stage(tools, work, rep, ev, rng)
+    uon = unpack_opts_stage(tools, work, rep, ev, tier)
+    if uon is None:
+        return 2
+    evaluations += uon
     pdn = pack_dir_stage(tools, work, rep, ev, tier)
     if pdn is None:
         return 2
